@@ -48,7 +48,7 @@ CLAIMED = {
         "operation once, identity first), wrapped into [0,1), merged and labelled with aligned bookkeeping, and every consumer key "
         "exists. Not 'the output equals the orbit': which images coincide is a run-time KD-tree fact.",
         "decides R01.1-R01.5; inherits C02 (the operation list is the group) and C11 (decode/apply); KD-tree distances, the merge "
-        "tolerance and float wrap at x = -K are not decided",
+        "unit of the merge tolerance (open finding) are not decided",
     ),
     "C02": (
         "exhaustive exact table model (integers mod 12) of all 530 settings + semantics of LATT/SYMM extracted from the code and turned into table obligations",
@@ -178,8 +178,10 @@ def main():
             "replay_cmd_template": f"/venv/bin/python /verif/check {pid} --replay {{path}}",
             "engine": "sa",
             "technique": "static analysis: " + tech,
-            "level_claimed": {"category": "other", "text": text, "design_ref": f"DESIGN.md section 5 {pid}"},
-            "level_note": note,
+            "level_claimed": {"category": "other", "text": text, "design_ref": f"DESIGN.md section 5 {pid} and section 9.2"},
+            "level_note": note + " | Rules added during the build (DESIGN.md 9.2), the generic cache rule R" + pid[1:] +
+                          ".9 and inherited rules of other properties are part of this check; open known findings of this property are "
+                          "listed in known_findings.json and printed as KNOWN-FINDING lines (exit 0).",
         })
     m = {
         "version": 1,
@@ -194,7 +196,8 @@ def main():
         "checks": checks,
         "notes": "All checks decide clauses of the properties from the source under /repo without importing or running "
                  "chmpy. Exit 2 + ANALYSIS-ERROR means the analysis could not be carried out (vanished anchor, "
-                 "unrecognised idiom at an enumerated site).",
+                 "unrecognised idiom at an enumerated site). Genuine defects found on the pinned tree were repaired in /repo by 'fix:' commits "
+                 "(D1-D40, known_findings.json 'fixed' records) or are listed there as open findings with the construct that fails.",
         "not_applicable": [{"property_id": i, "reason": PENDING_REASON} for i in ids if i not in CLAIMED],
     }
     with open(os.path.join(HERE, "MANIFEST.json"), "w") as f:
